@@ -128,6 +128,9 @@ class LabelProbabilityInjector(Injector):
             np.array or pd.DataFrame: copy of data, resampled with shifted
                 class probability for 1 or more desired classes
         """
+        # work on a copy: the caller's dictionary must not be modified
+        class_probabilities = dict(class_probabilities)
+
         # handle data type
         ret, (target_col,) = self._preprocess(data, target_col)
 
